@@ -33,6 +33,7 @@ type Prog struct {
 	lockInfo  *LockInfo
 	inCallSiteBound int
 	immutableField map[string]bool
+	handoffFns     map[*ssa.Function]bool
 	baselineNames  map[string]bool // bare names of the functions listed in helpers_baseline.txt (variant builder)
 	freshFn        map[*ssa.Function]bool
 	inlinedSites, removedHelpers []string // variant only: what InlineHelpers did
